@@ -266,13 +266,9 @@ def c14(tier, seed):
 
 def c04(tier, seed):
     jobs = []
-    nm = [(1, 1), (2, 1), (2, 2), (3, 1), (3, 2), (4, 1)] if tier == 'quick' else [(1, 1), (2, 1), (2, 2), (3, 1), (3, 2), (4, 1), (5, 1)]
+    nm = [(1, 1), (2, 1), (2, 2), (3, 1), (3, 2), (4, 1)] if tier == 'quick' else [(1, 1), (2, 1), (2, 2), (3, 1), (3, 2), (3, 3), (4, 1), (4, 2), (5, 1)]
     for n, m in nm:
         jobs.append(J('vh_c04_table', [n, m, 0], 'Hopcroft on an arbitrary %d-state %d-letter table' % (n, m), cost=(n ** (n * m)) * 2 ** n))
-    if tier == 'thorough':
-        # 4x2 and 3x3 with symbolic final flags did not finish within an hour on this machine: slices with concrete final sets
-        for n, m, mask in [(4, 2, 0b0111), (4, 2, 0b1000), (4, 2, 0b0101), (4, 2, 0b0011), (3, 3, 0b001), (3, 3, 0b011), (3, 3, 0b101)]:
-            jobs.append(J('vh_c04_table', [n, m, mask + 1], 'Hopcroft on %d-state %d-letter tables with final set mask %s (successors symbolic)' % (n, m, bin(mask)), cost=n ** (n * m)))
     if tier == 'quick':
         # the full 5x1 and 4x2 spaces belong to the thorough tier (28 000+ paths each); the quick tier keeps two slices of
         # them with concrete final sets (symbolic successors), among them the slices in which the repaired take_list
@@ -285,7 +281,7 @@ def c04(tier, seed):
                       'compared with Moore distinguishability; Automaton::minimize on builder-made automata of shapes %s: bisimulation of initial '
                       'states on the union automaton (language equality for strings of any length on that path), pairwise distinguishable result, '
                       'state count = Nerode index; compiled expressions are covered in C02' % (nm, built_shapes(tier)),
-            'outside': ['more states / letters (4x2 and 3x3 only for the listed final sets; 4 states x 3 letters and beyond were not explored)']}
+            'outside': ['more states / letters (4 states x 3 letters and beyond were not explored)']}
 
 
 def RJ(harness, api, n, b, extra, sh, label, **kw):
